@@ -13,7 +13,7 @@ echo "demo with:    $(demo)"
 echo "suite: $(PYTHONPATH=$WT timeout 600 /venv/bin/python -m pytest -q -p no:cacheprovider 2>&1 | tail -1)"
 for Q in $P "$@"; do
   cd /verif
-  out=$(VERIF_REPO=$WT VERIF_JOBS=${VERIF_JOBS:-6} timeout 1500 ./check $Q --tier quick 2>&1 | grep -v "^KNOWN-FINDING\|^WARNING" | tail -2 | cut -c1-260)
+  out=$(VERIF_EVIDENCE_DIR=/tmp/mut/evidence VERIF_REPLAYS_DIR=/tmp/mut/replays VERIF_REPO=$WT VERIF_JOBS=${VERIF_JOBS:-6} timeout 1500 ./check $Q --tier quick 2>&1 | grep -v "^KNOWN-FINDING\|^WARNING" | tail -2 | cut -c1-260)
   echo "check $Q: $out"
 done
 cd /; git -C /repo worktree remove --force $WT
